@@ -180,6 +180,53 @@ class LayoutManager:
         raise AnalysisError("B4 self-test: rule did not fire on the synthetic search without tie-break")
 
 
+# ------------------------------------------------------------------ B5
+GATHERV_TEMPLATE = """
+sizes = [coords.pop() for coords in mpi_data]
+starts = np.zeros(len(sizes), int)
+starts[1:] = np.cumsum(sizes[:comm.Get_size() - 1])
+sliceSize = np.sum(sizes)
+mySlice = np.empty(sliceSize, dtype=float)
+comm.Gatherv(toSend, (mySlice, sizes, starts, MPI.DOUBLE), rank)
+"""
+
+
+def b5_gatherv_geometry(chk):
+    """the root's receive specification of the variable-count gather matches what the members send"""
+    from ..core import find, contains
+    q = "Grid.getBlockForFig"
+    fn = chk.func(U.GRID, q)
+    calls = [n for n in ast.walk(fn) if isinstance(n, ast.Call) and isinstance(n.func, ast.Attribute) and n.func.attr == "Gatherv"]
+    if len(calls) != 2:
+        raise AnalysisError(f"C06: expected the root and the member Gatherv of {q}, found {len(calls)}")
+    b = find(fn, GATHERV_TEMPLATE, vars=("comm", "mpi_data", "toSend", "rank", "coords"))
+    bad = None
+    if b is None:
+        root = [c for c in calls if len(c.args) >= 2 and isinstance(c.args[1], (ast.Tuple, ast.List))]
+        if root and isinstance(root[0].args[1].elts[0], ast.Name):
+            rn = root[0].args[1].elts[0].id
+            defs = [n for n in ast.walk(fn) if isinstance(n, ast.Assign) and src(n.targets[0]) == rn]
+            if defs and isinstance(defs[-1].value, ast.Subscript) and src(defs[-1].value.value).startswith("self."):
+                attr = src(defs[-1].value.value)
+                for g in ast.walk(fn):
+                    if isinstance(g, ast.Compare) and len(g.ops) == 1 and f"{attr}.size" in (src(g.left), src(g.comparators[0])):
+                        need_left = src(g.comparators[0]) == f"{attr}.size"       # S op attr.size
+                        grow = isinstance(g.ops[0], (ast.Gt, ast.GtE, ast.NotEq)) if need_left else \
+                            isinstance(g.ops[0], (ast.Lt, ast.LtE, ast.NotEq))
+                        if not grow:
+                            bad = (f"the receive buffer `{rn}` is a view of the kept `{attr}`, which is re-allocated only when `{src(g)}`: "
+                                   "a later, larger request gets a receive buffer shorter than the counts the members send")
+    chk.pat("B5-gatherv-geometry", calls[0], "root: recv = empty(sum(counts)), displs = exclusive cumsum(counts), counts gathered from the members",
+            b is not None, "the counts are the sizes every member reported, the displacements their exclusive prefix sums and the receive "
+            "buffer has exactly their total", bad, file=U.GRID, func=q)
+    ok = b is not None and contains(fn, "mpi_data = comm.gather(sendInfo, root=rank)", vars=("comm", "sendInfo", "rank"),
+                                    bind={k: v for k, v in b.items() if k in ("comm", "mpi_data", "rank")}) is not None and \
+        contains(fn, "toSend = np.ndarray(0)\nsendInfo.append(0)", vars=("toSend", "sendInfo"), bind={"toSend": b["toSend"]}) is not None and \
+        contains(fn, "sendInfo.append(toSend.size)", vars=("toSend", "sendInfo"), bind={"toSend": b["toSend"]}) is not None
+    chk.pat("B5-gatherv-geometry", fn, "every member reports the size of the buffer it then sends", ok,
+            "the reported count is the size of the very array passed to Gatherv (0 for an empty contribution)", file=U.GRID, func=q)
+
+
 def run(chk):
     chk.explanation = (
         "SPMD collective matching by static analysis: rank-variation labels (RANK/AXIS/DATA/CLOCK/FS/HASH) are "
@@ -200,6 +247,7 @@ def run(chk):
     prog = Program(chk.repo, UNITS)
     lay = chk.mod(U.LAYOUT)
     b4_self_positive(chk)
+    b5_gatherv_geometry(chk)
     b4ok = b4_route_determinism(chk, lay)
     s, tracers = run_spmd(chk, prog, UNITS, b4_ok_funcs=("_makeConnectionMap",) if b4ok else ())
     ncoll = sum(len(fi.collective_sites) for fi in s.funcs.values())
